@@ -5,6 +5,8 @@ proof: Properties_C04.v (AugLag.v at the real instance: every te_eval_* = closed
   terms are equivalent to the hand-written te_*; finite theorems over the generated tables);
 correspondence: AugLag.v at binary64 (Corr_C04.chk04: values AND the log of user members called) vs drv_C04, which
   reaches one mask-switchable problem through TypeErasedProblem directly / ProblemWithCounters / FunctionalProblem;
+  route 3 (vf.cascheck / drv_casadi): the same family reached through the real alpaqa::CasADiProblem from a generated
+  CasADi-ABI shared object (values and the generated functions entered);
 oracle: closed forms recomputed here from f, grad f, g, Jg only, compared with what the interface returned;
   grad psi against central finite differences of the interface's psi (support)."""
 import math, importlib.util
@@ -378,8 +380,11 @@ def run(ctx):
         "infinite sides of D are None in the model (equal to ±inf doubles for finite ζ)",
         "differentiability: proved for the 1-D penalty z -> ½σ·dist²(z,[l,u]); the multivariate chain rule is assumed and supported by finite differences",
         "wrapper transparency (ProblemWithCounters, FunctionalProblem) is a correspondence claim (same model for every route), not a theorem",
-        "CasADi and C-ABI (dl) wrappers are not exercised at run time here (dl forwarding is covered by C20); the CasADi loader's call sites are checked "
-        "statically (argument roles vs the python generator's declared inputs and the loader's dims)",
+        "C-ABI (dl) wrappers are not exercised at run time here (dl forwarding is covered by C20)",
+        "CasADi route: the real alpaqa::CasADiProblem, built with the library's own replacement of the CasADi runtime (no libcasadi), is run on "
+        "shared objects generated by lib/vf/casgen.py (CasADi generated-code ABI, closed forms written in C, harness/cas_closed_forms.h); "
+        "code generated by CasADi itself from symbolic expressions is not run (the plug-ins follow the argument order the python generator declares, "
+        "which the static table check of coq/gen/VtableGen.v ties to python/alpaqa/casadi_generator)",
         "translator (translate/gen_C04_vtable.py): restricted C++ statement grammar; binding of vtable entry names to the model's record fields and "
         "the classification rvec = output / crvec,real_t = input / work_* = scratch are part of the trusted translator; vectors have their declared sizes "
         "(loops over y.size() become maps over the shortest list)"]
@@ -514,3 +519,6 @@ def run(ctx):
                               "model": getattr(ctx, "last_dump", ""), "n_disagreeing": len(failing_g)}))
     elif failing_g is not None:
         ctx.coverage["generated_model_disagreements"] = 0
+    # the CasADi route at run time: real CasADiProblem on generated CasADi-ABI plug-ins (closed forms + route 3 of Corr_C04.v)
+    from vf import cascheck
+    cascheck.attach_C04(ctx, to_coq)
